@@ -77,6 +77,26 @@ func limitsPrograms(r *rand.Rand, L int) []*Program {
 	} {
 		add("format "+f.fmtstr, Def("r", Call(Id("format"), append([]*Node{Str(f.fmtstr)}, f.args...)...)))
 	}
+	// %x / %X of strings and bytes with every combination of the flags that change the size of the output, for every operand length
+	for _, f := range []string{"%x", "% x", "%#x", "% #x", "%# X", "%-20x", "%020x", "% #20x"} {
+		for n := 1; n <= L; n++ {
+			add(fmt.Sprintf("format %s len %d", f, n), Def("r", Call(Id("format"), Str(f), str(n))))
+			add(fmt.Sprintf("format-bytes %s len %d", f, n), Def("r", Call(Id("format"), Str(f), Call(Id("bytes"), str(n)))))
+		}
+	}
+	for _, f := range []string{"%q", "%+q", "%#q", "%v", "%10v", "%-10s", "%10s", "%.3s", "%c%c", "%U", "%#U", "%08.3f", "%+.2e", "%t", "%5t", "%T", "%10T"} {
+		add("format-misc "+f, Def("r", Call(Id("format"), Str(f), Str("héllo"), Str("x"))), Def("q", Call(Id("format"), Str(f), Int(233), Int(65))),
+			Def("w", Call(Id("format"), Str(f), Float16(24), Bool(true))))
+	}
+	// literals with multi-byte characters: the maximum counts bytes
+	for k := 1; k <= L; k++ {
+		b := ""
+		for i := 0; i < k; i++ {
+			b += "é"
+		}
+		add(fmt.Sprintf("literal-utf8 %d bytes", 2*k), Def("r", Str(b)))
+		add(fmt.Sprintf("literal-utf8+ascii %d bytes", 2*k+1), Def("r", Str(b+"a")), Def("n", Call(Id("len"), Id("r"))))
+	}
 	// growth in loops
 	add("doubling", Def("s", Str("ab")), For(Def("i", Int(0)), Bin("<", Id("i"), Int(6)), IncDec("i", nil, "++"), Blk(Set("s", nil, "+=", Id("s")))))
 	add("bytes-doubling", Def("s", Call(Id("bytes"), Str("ab"))), For(Def("i", Int(0)), Bin("<", Id("i"), Int(6)), IncDec("i", nil, "++"),
